@@ -284,17 +284,33 @@ func (e *CacheEntry) ToMsg(req *dns.Msg) *dns.Msg {
 		resp.AuthenticatedData = false
 	}
 
+	// Records owned by the question name carry the client's spelling of it,
+	// as on the byte path, where they are compression pointers to the echoed
+	// question and so read back in the client's case. Keeping the spelling
+	// the entry happened to be stored under is harmless for the name itself
+	// (names compare case-insensitively) but not for the reply's size: the
+	// library compresses by exact spelling, so such an owner no longer
+	// shares the question's bytes, and a reply the byte path serves whole
+	// could cross the client's UDP ceiling here and go out truncated.
+	echo := ""
+	if len(req.Question) > 0 && req.Question[0].Name != e.question.Name {
+		echo = req.Question[0].Name
+	}
+
 	// Update TTLs
 	ttl := uint32(remainingTTL.Seconds())
 	for _, rr := range resp.Answer {
 		rr.Header().Ttl = ttl
+		echoOwnerSpelling(rr, echo)
 	}
 	for _, rr := range resp.Ns {
 		rr.Header().Ttl = ttl
+		echoOwnerSpelling(rr, echo)
 	}
 	for _, rr := range resp.Extra {
 		if rr.Header().Rrtype != dns.TypeOPT {
 			rr.Header().Ttl = ttl
+			echoOwnerSpelling(rr, echo)
 		}
 	}
 
@@ -332,6 +348,19 @@ func (e *CacheEntry) ToMsg(req *dns.Msg) *dns.Msg {
 	}
 
 	return resp
+}
+
+// echoOwnerSpelling rewrites rr's owner to name when the two are the same
+// DNS name in different letter case (ASCII folding, the folding the cache
+// key and the wire form use). An empty name means the client asked with the
+// stored spelling and nothing needs doing.
+func echoOwnerSpelling(rr dns.RR, name string) {
+	if name == "" {
+		return
+	}
+	if h := rr.Header(); h.Name != name && equalNameASCIIFold(h.Name, name) {
+		h.Name = name
+	}
 }
 
 // storedMsg unpacks the retained wire form without any serve-time shaping.
